@@ -8,7 +8,9 @@
 From Coq Require Import String.
 From PV Require Import Base.Bytes Base.Outcome Base.Prim Base.Fmt Base.Enum
      Gen.ElfLayouts Gen.Tables Spec.ElfGabi Spec.PrimSpec Spec.C02Spec
-     Model.C02Contents Gen.PyFuns Proofs.C02Proofs Proofs.C02Containment Proofs.PyFunsC02.
+     Spec.C02Hist Model.C02Contents Model.C02Hist Gen.PyFuns Proofs.C02Proofs Proofs.C02Containment
+     Proofs.PyFunsC02 Proofs.C02Hist.
+Open Scope list_scope.
 Open Scope Z_scope.
 
 (* ---------------- what the code's data is: Gen tables against the gABI ---------------- *)
@@ -94,6 +96,42 @@ Theorem C02_data_compressed_size_mismatch_rejected :
 Proof. exact data_compressed_size_mismatch_rejected. Qed.
 Print Assumptions C02_data_compressed_size_mismatch_rejected.
 
+(* the same three facts whichever observer is asked first of a freshly built section object and
+   however often: any list [obs] of compressed / data_size / data_alignment / data() on one object
+   (Model.C02Hist.sec_session = Section.__init__ followed by the observers) is answered from
+   the header resp. the compression header *)
+Theorem C02_section_observations_any_order_plain :
+  forall inflate T sht flags addr align le is64 pre body tail obs,
+  sh_type_table_ok T = true -> sht <> SHT_NOBITS -> plain_flags flags ->
+  let h := mk_sheader (dec_enum T sht) flags addr (zlen pre) (zlen body) align in
+  sec_session inflate (pre ++ body ++ tail) le is64 h obs
+  = Ok (spec_sec_session (false, zlen body, align, Some body) obs).
+Proof. exact session_plain. Qed.
+Print Assumptions C02_section_observations_any_order_plain.
+
+Theorem C02_section_observations_any_order_nobits :
+  forall inflate T flags addr off size align le is64 stream obs,
+  sh_type_table_ok T = true -> plain_flags flags ->
+  let h := mk_sheader (dec_enum T SHT_NOBITS) flags addr off size align in
+  sec_session inflate stream le is64 h obs
+  = Ok (spec_sec_session (false, size, align, Some (nobits_data size)) obs).
+Proof. exact session_nobits. Qed.
+Print Assumptions C02_section_observations_any_order_nobits.
+
+Theorem C02_section_observations_any_order_compressed :
+  forall (inflate : list Z -> Z -> option (list Z * bool)) (zvalid : list Z -> list Z -> Prop),
+  (forall z p, zvalid z p -> inflate z 0 = Some (p, true)) ->
+  (forall z p n, zvalid z p -> 0 < n -> inflate z n = Some (firstn (Z.to_nat n) p, zlen p <=? n)) ->
+  forall T sht flags addr align le is64 pre res al z p tail obs,
+  sh_type_table_ok T = true -> sht <> SHT_NOBITS -> compressed_flags flags ->
+  zvalid z p -> chdr_fits le is64 ELFCOMPRESS_ZLIB res (zlen p) al = true ->
+  let body := compressed_section le is64 res (zlen p) al z in
+  let h := mk_sheader (dec_enum T sht) flags addr (zlen pre) (zlen body) align in
+  sec_session inflate (pre ++ body ++ tail) le is64 h obs
+  = Ok (spec_sec_session (true, zlen p, al, Some p) obs).
+Proof. exact session_compressed. Qed.
+Print Assumptions C02_section_observations_any_order_compressed.
+
 (* ---------------- segments ---------------- *)
 Theorem C02_segment_data : forall pre body tail,
   segment_data (pre ++ body ++ tail) (zlen pre) (zlen body) = body.
@@ -121,6 +159,43 @@ Theorem C02_address_offsets_exact : forall stream le is64 T phoff phentsize phs 
   address_offsets stream le is64 T phoff phentsize (zlen phs) start size = Ok (addr_map phs start size).
 Proof. exact address_offsets_exact. Qed.
 Print Assumptions C02_address_offsets_exact.
+
+(* the mapping holds after ANY history of lookups on one ELFFile object: address_offsets() and
+   iter_segments() generators started, resumed item by item, closed or dropped half way,
+   interleaved with each other and with unrelated calls.  Every answer of every history
+   (Model.C02Hist.elf_hist: one suspended walk per generator object, each with its own loop
+   variable) is the answer of the stateless specification (Spec.C02Hist.spec_elf_hist: the j-th
+   next() of a generator yields the j-th element of addr_map resp. of the segment list) *)
+Theorem C02_address_offsets_history_exact : forall stream le is64 T phoff phentsize phs h,
+  p_type_table_ok T = true ->
+  forallb (phdr_fits le is64) phs = true ->
+  phdrs_at le is64 stream phoff phentsize phs = true ->
+  elf_hist (mkEfile stream le is64 T phoff phentsize (zlen phs)) h = spec_elf_hist phs h.
+Proof. exact elf_hist_exact. Qed.
+Print Assumptions C02_address_offsets_history_exact.
+
+(* the invariant behind it, over the fold of the step function: after any history each generator
+   object of the model stands exactly where the specification's does (same arguments, same
+   finished flag, loop variable past exactly the headers that produced the items counted) *)
+Theorem C02_address_offsets_state_invariant : forall stream le is64 T phoff phentsize phs h,
+  p_type_table_ok T = true ->
+  forallb (phdr_fits le is64) phs = true ->
+  phdrs_at le is64 stream phoff phentsize phs = true ->
+  Forall2 (gen_agree phs)
+          (elf_state_after (mkEfile stream le is64 T phoff phentsize (zlen phs)) h)
+          (spec_state_after phs h).
+Proof. exact elf_state_invariant. Qed.
+Print Assumptions C02_address_offsets_state_invariant.
+
+(* in particular: whatever was done before, a complete lookup yields exactly addr_map *)
+Theorem C02_address_offsets_after_any_history : forall stream le is64 T phoff phentsize phs h start size,
+  p_type_table_ok T = true ->
+  forallb (phdr_fits le is64) phs = true ->
+  phdrs_at le is64 stream phoff phentsize phs = true ->
+  last (elf_hist (mkEfile stream le is64 T phoff phentsize (zlen phs)) (h ++ [EAll (KAddr start size)])) AUnit
+  = AList (map (fun o => [o]) (addr_map phs start size)).
+Proof. exact address_offsets_after_any_history. Qed.
+Print Assumptions C02_address_offsets_after_any_history.
 
 (* ---------------- strict containment ---------------- *)
 (* model = ELF_SECTION_IN_SEGMENT_1(sec, seg, 1, 1) with bfd_vma arithmetic, for all header values
@@ -201,6 +276,21 @@ Example C02_ex_phdrs :
   let img := [1; 2; 3] ++ enc_phdr true true h1 ++ [0xaa; 0xbb; 0xcc; 0xdd] ++ enc_phdr true true h2 ++ [0xee] in
   forallb (phdr_fits true true) [h1; h2] = true /\ phdrs_at true true img 3 60 [h1; h2] = true /\
   addr_map [h1; h2] 0x400100 0x100 = [0x1100].
+Proof. vm_compute. repeat split. Qed.
+(* a history on that image: the first lookup is abandoned after one item (it has not reached the
+   third header), then a range lying in the LAST PT_LOAD is asked, item by item and as a list *)
+Example C02_ex_history :
+  let h1 := mk_phdr PT_LOAD 5 0x1000 0x400000 0x400000 0x200 0x300 0x1000 in
+  let h2 := mk_phdr PT_NOTE 4 0x1100 0x400100 0x400100 0x20 0x20 4 in
+  let h3 := mk_phdr PT_LOAD 6 0x2000 0x600000 0x600000 0x80 0x80 0x1000 in
+  let img := [1; 2; 3] ++ enc_phdr true true h1 ++ [0xaa] ++ enc_phdr true true h2 ++ [0xbb] ++ enc_phdr true true h3 in
+  let T := p_type_table "EM_X86_64" in
+  let h := [EStart (KAddr 0x400010 1); ENext 0; EClose 0; EStart (KAddr 0x600000 1); ENext 1; ENext 1;
+            EAll (KAddr 0x600000 1); ENext 0] in
+  p_type_table_ok T = true /\ forallb (phdr_fits true true) [h1; h2; h3] = true /\
+  phdrs_at true true img 3 57 [h1; h2; h3] = true /\
+  elf_hist (mkEfile img true true T 3 57 3) h
+  = [AUnit; AItem [0x1010]; AUnit; AUnit; AItem [0x2000]; AStop; AList [[0x2000]]; AStop].
 Proof. vm_compute. repeat split. Qed.
 (* a zero-size SHF_ALLOC section at the very start of a PT_NOTE segment: in the domain, and the
    rule says "not contained" (the clause pyelftools lacked) *)
